@@ -402,9 +402,29 @@ def build_T25(tree):
     if len(outer) != 1 or _norm(outer[0].iter) != 'segments_iterable' or _norm(outer[0].target) != 'segment_number':
         raise Unsupported('the plane loop is no longer nested directly in `for segment_number in segments_iterable`')
     entries = [f'loop | for {_norm(outer[0].target)} in {_norm(outer[0].iter)}', f'loop | for {_norm(loop.target)} in {_norm(loop.iter)}']
-    div = [n for n in ast.walk(loop) if isinstance(n, ast.Assign) and ast.unparse(n.targets[0]) == 'dimension_index_values']
-    entries += sorted('loop | ' + _norm(n) for n in div if not isinstance(n.value, ast.ListComp))
-    if sum(isinstance(n.value, ast.ListComp) for n in div) != 1:
+    # every assignment to dimension_index_values with the chain of `if` tests it sits under (audit 2, C01-2); the slide
+    # arm (a comprehension over np.where(unique_dimension_values ...), inside a try) is named, not spelled out: its
+    # index vectors are not in the model (oracle of the `tiled` stream)
+    n_comp = [0]
+
+    def walk(stmts, ctx):
+        for st in stmts:
+            if isinstance(st, ast.If):
+                t = _norm(st.test)
+                walk(st.body, ctx + [t])
+                walk(st.orelse, ctx + ['not(' + t + ')'])
+            elif isinstance(st, ast.Try):
+                walk(st.body, ctx)
+            elif isinstance(st, (ast.For, ast.While, ast.With)):
+                walk(st.body, ctx)
+            elif isinstance(st, ast.Assign) and ast.unparse(st.targets[0]) == 'dimension_index_values':
+                if isinstance(st.value, ast.ListComp):
+                    n_comp[0] += 1
+                    entries.append(f'loop | {" & ".join(ctx) or "-"} | dimension_index_values=<one index per slide coordinate>')
+                else:
+                    entries.append(f'loop | {" & ".join(ctx) or "-"} | {_norm(st)}')
+    walk(loop.body, [])
+    if n_comp[0] != 1:
         raise Unsupported('expected exactly one list comprehension (slide coordinates) assigned to dimension_index_values')
     call = _one([n for n in ast.walk(loop) if isinstance(n, ast.Call) and ast.unparse(n.func) == 'self._get_pffg_item'],
                 'call of _get_pffg_item in the frame loop')
